@@ -54,6 +54,13 @@ def install(cfg):
         t = _bytes_arg(interp, s, "b64decode")
         # structural inverse: decoding exactly a (padded) encoding gives back what was encoded
         ts = simp(t)
+        # syntactic form  B64U(x) ++ "=" * ((-|B64U(x)|) % 4)  (or B64U(x) alone): independent of the registry
+        parts0 = STR.flatten_concat(ts)
+        if parts0 and S.is_b64u_app(parts0[0]):
+            e0 = parts0[0]
+            if len(parts0) == 1 or (len(parts0) == 2 and tid(simp(S.pad_for(ctx, e0))) == tid(parts0[1])):
+                ctx.axiom_log.add("b64decode(B64U(x) ++ padding to a multiple of 4) = x")
+                return interp.mk("vbytes", e0.arg(0))
         for x, e in list(ctx.ghost.get("B64U_terms", [])):
             if tid(simp(z3.Concat(e, S.pad_for(ctx, e)))) == tid(ts) or tid(simp(e)) == tid(ts):
                 ctx.axiom_log.add("b64decode(B64U(x) ++ padding to a multiple of 4) = x")
